@@ -934,17 +934,24 @@ def check_sdd_general(y, total, M, sps, eps, what, key, v):
 
 
 SDD_DTYPES = ('float64', 'bool', 'int8', 'uint8', 'int16', 'int32', 'int64', 'uint64', 'float16', 'float32', 'complex64', 'complex128',
-              'complex64:imag', 'complex128:imag')
+              'complex64:imag', 'complex128:imag', 'float16:full-scale')
 SDD_LAYOUTS = ('ndarray', 'list', 'tuple', 'ndarray:write-protected', 'ndarray:strided-view', 'electrical_signal',
                'electrical_signal:write-protected', 'electrical_signal+zeros', 'electrical_signal+zeros:float32',
                'electrical_signal+split:same', 'electrical_signal+split:float32', 'electrical_signal+split:int16',
-               'electrical_signal+split:complex64', 'electrical_signal+zero-sum-split')
+               'electrical_signal+split:complex64', 'electrical_signal+zero-sum-split', 'electrical_signal+split:full-scale')
 SDD_SCALES = (1.0, 1e-12, 1e-9, 1e-6, 1e6, 'offset')
+
+
+FULL_SCALE_INTS = ('int8', 'uint8', 'int16', 'int32')     # 64-bit sums are beyond exact float64 arithmetic: outside
 
 
 def sdd_variant_exists(dtype, layout, scale):
     base = dtype.split(':')[0]
     kind = np.dtype(base).kind
+    if layout.endswith('full-scale'):
+        return dtype in FULL_SCALE_INTS and scale == 1.0
+    if dtype.endswith('full-scale'):
+        return scale == 1.0 and '+split' not in layout and '+zero-sum' not in layout
     if scale != 1.0:
         if scale == 'offset':
             return kind in 'fc' and base != 'float16' or base in ('int32', 'int64', 'uint64')
@@ -962,12 +969,18 @@ def build_sdd_input(M, sps, nsym, dtype, layout, scale, rs):
     The total is an integer field 0..100 (0/1 for bool; + j*(-30..30) for ':imag'), times `scale` or plus a 1e6 offset.
     '+split:<dt>': the field is split into a signal and a noise component 0 <= n <= total of dtype <dt> (both parts
     representable in every dtype used, so signal + noise is the field exactly; the winner of either part alone differs from
-    the winner of the sum on most symbols).  '+zero-sum-split': noise sums to zero over the record, not per slot."""
+    the winner of the sum on most symbols).  '+zero-sum-split': noise sums to zero over the record, not per slot.
+    Narrow sample dtypes at full scale (policy: sample data in any integer / narrow dtype is inside the statement, wrap-around
+    or overflow there is a finding): '+split:full-scale' - an integer signal and an integer noise of the same dtype, each up to
+    3/4 of the dtype's maximum, so that signal + noise leaves the dtype on most samples (total = the exact integer sum);
+    'float16:full-scale' - float16 samples 0, 8192, ... 57344 whose slot sums exceed the float16 range from sps = 2 on."""
     from opticomlib.typing import electrical_signal
     base = dtype.split(':')[0]
     dt = np.dtype(base)
     N = nsym * M * sps
     field = rs.randint(0, 2 if dt.kind == 'b' else 101, N).astype(np.int64)
+    if dtype == 'float16:full-scale':
+        field = 8192 * rs.randint(0, 8, N).astype(np.int64)
     cfield = field.astype(complex) + 1j * rs.randint(-30, 31, N) if dtype.endswith(':imag') else None
 
     def cast(a, to=dt, dc=True):
@@ -981,7 +994,12 @@ def build_sdd_input(M, sps, nsym, dtype, layout, scale, rs):
 
     kind, _, ndt = layout.partition('+')
     noise = None
-    if ndt.startswith('split') or ndt == 'zero-sum-split':
+    exact_total = None
+    if ndt == 'split:full-scale':
+        top = int(np.iinfo(dt).max) * 3 // 4
+        sig, noise = rs.randint(0, top + 1, N).astype(dt), rs.randint(0, top + 1, N).astype(dt)
+        exact_total = sig.astype(np.int64) + noise.astype(np.int64)
+    elif ndt.startswith('split') or ndt == 'zero-sum-split':
         if ndt == 'zero-sum-split':
             h = rs.randint(-20, 21, N // 2)
             nint = np.concatenate([h, -h, np.zeros(N - 2 * (N // 2), dtype=np.int64)])
@@ -999,6 +1017,10 @@ def build_sdd_input(M, sps, nsym, dtype, layout, scale, rs):
         if noise is not None and not np.array_equal(tot, sig.astype(tot.dtype) + noise.astype(tot.dtype)):
             raise RuntimeError('electrical_signal does not hold the samples it was given')
         lib_dtype = tot.dtype
+        if exact_total is not None:
+            if not (np.array_equal(obj.signal, sig) and np.array_equal(obj.noise, noise)):
+                raise RuntimeError('electrical_signal does not hold the samples it was given')
+            tot = exact_total                                                  # the sum of the samples, not its wrap-around in the dtype
         if kind.endswith('write-protected'):
             for a in (obj.signal, obj.noise):
                 if a is not None:
@@ -1023,6 +1045,7 @@ def build_sdd_input(M, sps, nsym, dtype, layout, scale, rs):
 def sdd_general_case(case):
     """case = ('sddgen', M, sps, nsym, dtype, layout, scale, seed): one waveform class (sample dtype x container / noise layout
     x scale) through the generic SDD oracle; the object is passed twice and must come back unchanged"""
+    import warnings
     from opticomlib.ppm import SDD
     _, M, sps, nsym, dtype, layout, scale, seed = case
     gv_reset(sps=sps, R=1e9)
@@ -1031,13 +1054,19 @@ def sdd_general_case(case):
     v = Viol()
     what = f'M={M} sps={sps} nsym={nsym} samples={dtype} layout={layout} scale={scale}'
     snap = arg_snapshot(obj)
-    y = SDD(obj, M)
+    with warnings.catch_warnings():
+        warnings.simplefilter('ignore')           # numpy announces a float16 overflow with a RuntimeWarning
+        y = SDD(obj, M)
+        again = np.asarray(as_int_list(data_of(SDD(obj, M))[0]))
     arg_modified('SDD', layout, obj, snap, v)
+    if dtype == 'float16:full-scale' and np.dtype(lib_dtype) == np.float16:
+        lib_dtype = np.float32          # slot sums beyond the float16 range: single precision is the least an accumulator needs
     vals, ndec = check_sdd_general(y, total, M, sps, summation_eps(total, lib_dtype, sps), what,
-                                   'SDD:not-argmax:' + ('noisy-signal' if '+split' in layout or '+zero-sum' in layout else
+                                   'SDD:not-argmax:' + ('integer-signal+noise-leaves-dtype' if layout.endswith('full-scale') else
+                                                        'float16-slot-sum-overflows' if dtype.endswith('full-scale') else
+                                                        'noisy-signal' if '+split' in layout or '+zero-sum' in layout else
                                                         'complex-samples' if dtype.endswith(':imag') else
                                                         'scaled-samples' if scale != 1.0 else 'sample-dtype-or-container'), v)
-    again = np.asarray(as_int_list(data_of(SDD(obj, M))[0]))
     if again.size != vals.size or (again != vals).any():
         v.append(('SDD:same-object-reused', f'{what}: the second SDD call on the same object differs from the first'))
     gv_reset()
@@ -1100,11 +1129,13 @@ def sdd_gv_sequence_case(case):
 
 
 # ---- the order given as something other than a Python int
-M_FORMS_EQUAL = ('keyword M=', 'keywords input=, M=', 'np.int8', 'np.uint8', 'np.int16', 'np.uint16', 'np.int32', 'np.uint32', 'np.int64', 'np.intp',
-                 '0d:int64', '0d:int32', '0d:uint8')
-# Forms the statement is silent about (the documented type is int): np.uint64 (uint64 - 1 is a float in numpy 1.x), floats
-# holding the integer value.  Either a rejection (TypeError / ValueError) or the result for the int - never another result.
-M_FORMS_EITHER = ('np.uint64', '0d:uint64', 'float', 'np.float64', 'np.float32', 'np.float16', '0d:float64')
+# Policy (HARDEN_BRIEF): scalar parameters are enumerated as Python int, np.int64, np.int32 and 0-d arrays of those (must equal
+# the Python-int result) and by keyword.  Float-valued orders (float, np.float64, np.float32, 0-d float64: `8.0`) are not ints:
+# the statement is silent - a rejection (TypeError / ValueError) or the result for the int is accepted, never another result.
+# Unsigned and 8/16-bit numpy scalars and np.float16 are OUTSIDE the statements: run and recorded in the observation, nothing asserted.
+M_FORMS_EQUAL = ('keyword M=', 'keywords input=, M=', 'np.int64', 'np.int32', 'np.intp', '0d:int64', '0d:int32')
+M_FORMS_EITHER = ('float', 'np.float64', 'np.float32', '0d:float64')
+M_FORMS_OBSERVED = ('np.int8', 'np.uint8', 'np.int16', 'np.uint16', 'np.uint32', 'np.uint64', '0d:uint8', '0d:uint64', 'np.float16')
 
 
 def make_order(M, form):
@@ -1169,7 +1200,7 @@ def order_form_case(case):
         if fn == 'HDD' and got[0] == 'ok' and got[1][0] == 'exc':
             got = got[1]
         obs.append(zlib.crc32(repr(got).encode()))
-        if got == want:
+        if got == want or form in M_FORMS_OBSERVED:
             continue
         if got[0] == 'exc':
             if form in M_FORMS_EITHER and got[1] in ('TypeError', 'ValueError'):
@@ -1179,7 +1210,8 @@ def order_form_case(case):
             v.append((f'M-form:{fn}:result-differs-from-int-order', f'{fn}(..., M={Mobj!r} <{form}>) differs from the result for M={M} (int): '
                                                                     f'{str(got[1])[:200]} vs {str(want[1])[:200]}'))
     gv_reset()
-    return res(viol=_dedup(v), obs=(M, form, tuple(obs)), nontrivial=(M, form), stats={'mform_calls': 8})
+    return res(viol=_dedup(v), obs=(M, form, tuple(obs)), nontrivial=(M, form) if form not in M_FORMS_OBSERVED else False,
+               stats={'mform_calls': 8})
 
 
 # ---- degenerate inputs: zero symbols
@@ -1562,7 +1594,7 @@ def harden_spaces(tier, seed):
     quick = tier == 'quick'
     parts = []
     # order given as numpy scalar / 0-d array / float-valued
-    mf = [('mform', M, form, seed) for form in M_FORMS_EQUAL + M_FORMS_EITHER for M in ORDERS if make_order(M, form) is not None]
+    mf = [('mform', M, form, seed) for form in M_FORMS_EQUAL + M_FORMS_EITHER + M_FORMS_OBSERVED for M in ORDERS if make_order(M, form) is not None]
     parts.append(('order-scalar-types', order_form_case, mf, 120))
     # records of zero symbols
     deg = [('empty', fn, M, form) for fn in ('ENC', 'DEC', 'HDD', 'SDD') for M in (2, 16, 256)
